@@ -26,7 +26,7 @@ from symx.core import Ctx, Stats, explore, Inconclusive, Unsupported, PathLimit,
 from . import lib, runner, callsym
 
 ATOM_POOL = ["(p o1)", "(p o3)", "(p k)", "(q o1 o2)", "(q o2 o2)", "(q o3 k)", "(r)", "(s u1)", "(m o3 o3)", "(m o3 o1)"]
-FLUENT_POOL = ["(f o1)", "(g)", "(h o2 o1)", "(h o1 o1)", "(f k)", "(f o3)"]
+FLUENT_POOL = ["(f o1)", "(g)", "(h o2 o1)", "(h o1 o1)", "(f k)", "(f o3)", "(w3 o1 o1 o1)", "(w3 o1 o2 o3)"]
 GOALS = [
     [],
     [["p", "o1"]],
@@ -40,7 +40,8 @@ OBJECT_SETS = [dict(G.OBJECTS), {"o1": "t1", "o2": "t1", "o3": "t3", "u1": "t2",
                # takes the type that follows it)
                {"x1": "object", "o1": "t1", "o2": "t1", "o3": "t3", "u1": "t2"},
                {"o1": "t1", "o2": "t1", "x1": "object", "o3": "t3", "x2": "object", "u1": "t2"}]
-DOMAIN_TEXT = G.domain_text([("act", [], ["and"], ["and"])], const=True)
+DOMAIN_NAME = "uni-dom2"  # long enough to have proper prefixes, suffixes and extensions
+DOMAIN_TEXT = G.domain_text([("act", [], ["and"], ["and"])], const=True, name=DOMAIN_NAME)
 _N = [0]
 
 
@@ -171,7 +172,28 @@ def compare_spec(task, truth, values, back, problems, obligations):
         problems.append(f"numeric goal conditions differ from the declared ones: parsed {sorted(nb.elements())} declared {sorted(nums.elements())}")
 
 
+PROBE_VALUES = [1.25e-05, 4e-08, 123456789.125, -0.000123456789, 1e+16, 0.1 + 0.2, -2.5e-07, 1234567.0]
+
+
+def run_probe(task):
+    """numbers whose TEXT is unusual (exponent notation, many digits): the text of a number is outside the symbolic model
+    (values travel as placeholder tokens), so these are plain concrete round trips, reported as such"""
+    res = {"task": task, "outcome": "held", "paths": 1, "obligations": 1, "cex": None, "reached": 1}
+    atoms = {a: True for a in task["atoms"]}
+    for shift in range(len(PROBE_VALUES)):
+        fls = {f: PROBE_VALUES[(i + shift) % len(PROBE_VALUES)] for i, f in enumerate(task["fluents"])}
+        rp = concrete_round_trip(task, atoms, fls)
+        if rp.get("disagree"):
+            res["outcome"] = "violation"
+            res["cex"] = {"what": "; ".join(rp.get("problems") or [str(rp.get("observed"))])[:400], "atoms": atoms, "fluents": fls,
+                          "replay": callsym._jsonable(rp), "all_problems": list(rp.get("problems") or [])}
+            break
+    return res
+
+
 def run_task(task):
+    if task.get("probe"):
+        return run_probe(task)
     res = {"task": task, "outcome": "held", "paths": 0, "obligations": 0, "cex": None, "reached": 0}
     stats = Stats()
     try:
@@ -283,6 +305,8 @@ def tasks_for(tier, seed):
     for gi, goal in enumerate(GOALS):
         tasks.append({"atoms": ATOM_POOL[:k_atoms], "fluents": FLUENT_POOL[: 2 + gi % 4], "goal": goal,
                       "objects": OBJECT_SETS[gi % len(OBJECT_SETS)]})
+    for k in (2, 4):
+        tasks.append({"atoms": ATOM_POOL[:2], "fluents": FLUENT_POOL[:k], "goal": GOALS[1], "objects": OBJECT_SETS[0], "probe": True})
     while len(tasks) < n:
         atoms = rng.sample(ATOM_POOL, rng.randint(1, k_atoms))
         fluents = rng.sample(FLUENT_POOL, rng.randint(0, 4))
